@@ -2,75 +2,87 @@
     Models: Model/GitWalk.v (CollectFiles / handleEntry merging, document creation on both blob-reading paths),
     Model/Catfile.v (catfileReader.Next / Read over the response stream, contentSlab.alloc).
     Proofs: Proofs/GitWalk.v, Proofs/Catfile.v, Proofs/GitPaths.v.
-    Trusted boundary: go-git's object store (a tree = the forest of its entries; the recursive TreeWalker itself — stack of
-    entry iterators, base string, the caller's `seen` map, name validation, depth limit — IS modelled: tw_step), the cat-file output
+    Trusted boundary: go-git's object store (a tree = the forest of its entries; the walk itself IS modelled: walk_forest =
+    RepoWalker.walkTree; tw_step = go-git's TreeWalker used before the repairs), the cat-file output
     format, bufio (any hand-over amount >= 1 per Read), the glob matchers (verdict functions, universally
     quantified), index.Builder's round trip. Submodule recursion is not configured (Options.Submodules = false). *)
 From ZV Require Import Lib.Base Model.IgnoreFile Model.DirWalk Model.Catfile Model.GitWalk Proofs.DirWalk Proofs.Catfile Proofs.GitWalk Proofs.GitPaths Proofs.GitTreeWalk.
 
-(** The tree walk of CollectFiles (go-git's TreeWalker with the `seen` map CollectFiles passes: empty, never written) hands
-    over EVERY path of the branch tree, a directory before its content, in tree order — for all trees whose entry names go-git
-    accepts and that are at most maxTreeDepth+1 = 1025 levels deep.  Hashes are unconstrained annotations of the tree: the same
-    tree object at several paths, nested duplicates, identical blobs everywhere, even all hashes equal make no difference. *)
+(** The tree walk of CollectFiles (RepoWalker.walkTree, the own recursion over tree.Entries of the repaired code) hands
+    handleEntry EVERY path of the branch tree exactly as the recursive listing gives them (= `git ls-tree -r -t`: a directory
+    before its content, tree order) — for all trees with at most maxTreeDepth+1 = 1025 levels, ALL entry names.  Hashes are
+    unconstrained annotations of the tree: the same tree object at several paths, nested duplicates, identical blobs everywhere,
+    even all hashes equal make no difference (the walk keeps no memory of objects it has seen). *)
 Theorem C14_walk_all_paths : forall root,
-  forest_names_ok root -> forest_valid root -> forest_height root <= S max_tree_depth ->
-  tree_entries root = Ok (forest_paths [] root).
+  forest_height root <= S max_tree_depth -> tree_entries root = Ok (forest_paths [] root).
 Proof. exact tree_entries_all_paths. Qed.
 Print Assumptions C14_walk_all_paths.
 
 Theorem C14_walk_visits_every_path : forall root p m h,
-  forest_names_ok root -> forest_valid root -> forest_height root <= S max_tree_depth ->
+  forest_height root <= S max_tree_depth ->
   path_in [] root p m h ->
   exists es, tree_entries root = Ok es /\ In {| ge_path := p; ge_mode := m; ge_id := h |} es.
 Proof. exact tree_walk_visits_every_path. Qed.
 Print Assumptions C14_walk_visits_every_path.
 
-(** Why the set must stay empty: for ANY seen set the walker yields exactly the entries whose own hash and whose ancestors'
-    hashes are not in it (an entry with a hash in the set is dropped with everything below it, wherever it occurs). *)
-Theorem C14_walk_with_seen_set : forall root seen,
+(** Whatever the depth: the walk either hands over every path or fails (the error CollectFiles returns) — never a partial listing. *)
+Theorem C14_walk_never_partial : forall root es, tree_entries root = Ok es -> es = forest_paths [] root.
+Proof. intros root es H. exact (walk_forest_never_partial root 0 [] es H). Qed.
+Print Assumptions C14_walk_never_partial.
+
+(** The walker used before the repairs (go-git's TreeWalker with the caller's seen map), for ANY seen set: exactly the entries
+    whose own hash and whose ancestors' hashes are not in the set (an entry with a hash in the set is dropped with everything
+    below it, wherever it occurs) — complete only because the set stayed empty, and only on names go-git accepts. *)
+Theorem C14_gogit_walker_with_seen_set : forall root seen,
   forest_names_ok root -> forest_height root <= S max_tree_depth ->
   tw_run (walk_fuel root) (tw_init root seen) = Ok (forest_visits seen [] root).
 Proof. exact tree_walk_seen. Qed.
-Print Assumptions C14_walk_with_seen_set.
+Print Assumptions C14_gogit_walker_with_seen_set.
 
-(** REFUTED on the current code for trees git accepts but go-git's walker does not (finding rejected-entry-name): a name with a
-    control character (here "Icon\r" and the directory "a\tb") is legal in git (no '/', fsck --strict silent); TreeWalker.Next
-    returns ErrInvalidPath with an empty name, CollectFiles only tests for io.EOF: the file is handed over with the EMPTY path
-    and the directory is not descended into, so paths of the tree are missing. *)
+(** REFUTED BEFORE THE REPAIR 39be1f9 (finding rejected-entry-name), for trees git accepts but go-git's walker does not: a name
+    with a control character (here "Icon\r" and the directory "a\tb") is legal in git (no '/', fsck --strict silent);
+    TreeWalker.Next returned ErrInvalidPath with an empty name, CollectFiles only tested for io.EOF: the file was handed over with
+    the EMPTY path and the directory was not descended into.  The current walk lists the same tree completely. *)
 Definition c14_rejected_witness : gforest :=
   GCons [73;99;111;110;13]%N (GNode GRegular 1%N GNil)
    (GCons [97;9;98]%N (GNode GDir 2%N (GCons [102]%N (GNode GRegular 3%N GNil) GNil))
      (GCons [122]%N (GNode GRegular 4%N GNil) GNil)).
-Theorem C14_walk_all_paths_refuted :
+Theorem C14_walk_all_paths_refuted_before_fix :
   forest_names_ok c14_rejected_witness /\ forest_height c14_rejected_witness <= S max_tree_depth /\
   path_in [] c14_rejected_witness [97;9;98;47;102]%N GRegular 3%N /\
-  tree_entries c14_rejected_witness =
+  tree_entries_before_fix c14_rejected_witness =
     Ok [ {| ge_path := []; ge_mode := GRegular; ge_id := 1%N |}; {| ge_path := []; ge_mode := GDir; ge_id := 2%N |};
-         {| ge_path := [122]%N; ge_mode := GRegular; ge_id := 4%N |} ].
+         {| ge_path := [122]%N; ge_mode := GRegular; ge_id := 4%N |} ] /\
+  tree_entries c14_rejected_witness = Ok (forest_paths [] c14_rejected_witness) /\
+  length (forest_paths [] c14_rejected_witness) = 4.
 Proof.
-  split; [|split; [|split]].
+  split; [|split; [|split; [|split; [|split]]]].
   - cbn. unfold no_slash. cbn. intuition discriminate.
   - vm_compute. repeat constructor.
   - apply PiNext. apply PiBelow. apply PiHere.
   - vm_compute. reflexivity.
+  - vm_compute. reflexivity.
+  - vm_compute. reflexivity.
 Qed.
-Print Assumptions C14_walk_all_paths_refuted.
+Print Assumptions C14_walk_all_paths_refuted_before_fix.
 
-(** REFUTED for trees deeper than the walker's limit (finding deep-tree-hang): with 1025 nested directories Next reports
-    ErrMaxTreeDepth on every call and never io.EOF — the loop of CollectFiles does not end (Err 1). *)
+(** REFUTED BEFORE THE REPAIR 8664339 (finding deep-tree-hang): with 1025 nested directories TreeWalker.Next reported
+    ErrMaxTreeDepth on every call and never io.EOF — the loop of CollectFiles did not end (Err 1 of [tw_run]).  Now such a tree
+    is refused with an error (Err 1 of [walk_forest]); 1024 nested directories are walked, before and after. *)
 Fixpoint c14_deep (n : nat) : gforest :=
   match n with 0 => GCons [102]%N (GNode GRegular 1%N GNil) GNil | S k => GCons [100]%N (GNode GDir 2%N (c14_deep k)) GNil end.
-Theorem C14_walk_terminates_refuted :
+Theorem C14_walk_terminates_refuted_before_fix :
   forest_names_ok (c14_deep 1025) /\ forest_valid (c14_deep 1025) /\
+  tree_entries_before_fix (c14_deep 1025) = Err 1 /\ is_ok (tree_entries_before_fix (c14_deep 1024)) = true /\
   tree_entries (c14_deep 1025) = Err 1 /\ is_ok (tree_entries (c14_deep 1024)) = true.
 Proof.
   assert (forall n, forest_names_ok (c14_deep n)) as Hn.
   { induction n as [|n IH]; cbn; unfold no_slash; cbn; intuition discriminate. }
   assert (forall n, forest_valid (c14_deep n)) as Hv.
   { induction n as [|n IH]; cbn; intuition. }
-  split; [apply Hn|split; [apply Hv|split; vm_compute; reflexivity]].
+  split; [apply Hn|split; [apply Hv|repeat split; vm_compute; reflexivity]].
 Qed.
-Print Assumptions C14_walk_terminates_refuted.
+Print Assumptions C14_walk_terminates_refuted_before_fix.
 
 (** One entry per distinct (path, blob) ... *)
 Theorem C14_collect_one_per_key : forall bs, NoDup (map fst (collect bs)).
@@ -195,14 +207,13 @@ Example C14_walk_nonvacuous :
   let root := GCons [108;105;98]%N (GNode GDir 5%N (GCons [120]%N x GNil))
               (GCons [112;107;103]%N (GNode GDir 6%N (GCons [118;101;110;100;111;114]%N (GNode GDir 9%N (GCons [120]%N x GNil)) GNil))
               (GCons [118;101;110;100;111;114]%N (GNode GDir 9%N (GCons [120]%N x GNil)) GNil)) in
-  forest_names_ok root /\ forest_valid root /\ forest_height root <= S max_tree_depth /\
+  forest_height root <= S max_tree_depth /\
   match tree_entries root with Ok es => length es = 16 /\ length (filter (fun e => N.eqb (ge_id e) 7) es) = 3 | _ => False end /\
-  (* had the caller put the hash of every directory it was handed into the set, the copies would be lost: *)
+  (* a walker that skips hashes it was told about (go-git's, had the caller put the hash of every directory it was handed into
+     the seen set) loses the copies: *)
   match tw_run (walk_fuel root) (tw_init root [7%N]) with Ok es => length es = 4 | _ => False end.
 Proof.
-  split; [|split; [|split; [|split]]].
-  - cbn. unfold no_slash. cbn. intuition discriminate.
-  - vm_compute. intuition.
+  split; [|split].
   - vm_compute. repeat constructor.
   - vm_compute. split; reflexivity.
   - vm_compute. reflexivity.
